@@ -126,6 +126,7 @@ def run(ctx):
     import random, fedgrpc_lib
     rng = random.Random(ctx.seed)
     gs = fedgrpc_lib.scenarios(rng, "s%d" % ctx.seed, 32 if ctx.tier == "quick" else 400)
+    gs += fedgrpc_lib.special(rng, "s%d" % ctx.seed, 6 if ctx.tier == "quick" else 40)
     rejected, gstats = fedgrpc_lib.run(ctx, gs, par=32)
     ctx.cov["real_grpc_byte_cuts"] = gstats
     ctx.cov["traces_validated_against_impl"] += gstats["validated"] + gstats["rejected"]
